@@ -59,8 +59,8 @@ RECURSIVE Inter(_,_,_), Cont(_,_,_)
 Inter(a, b, strip) ==
    LET A == StripAll(a) B == StripAll(b) IN
    IF OTag(A) = "coll" THEN
-        \E i \in 1..Len(A[3]) : ~IsEmpty(A[3][i]) /\
-            \E p \in {NonEmptyParts(b, strip)[j] : j \in 1..Len(NonEmptyParts(b, strip))} : Inter(A[3][i], p, strip)
+        LET ps == NonEmptyParts(b, strip) IN          \* (bound once: the parts of b do not depend on the child of A)
+        \E i \in 1..Len(A[3]) : ~IsEmpty(A[3][i]) /\ \E j \in 1..Len(ps) : Inter(A[3][i], ps[j], strip)
    ELSE IF OTag(B) = "coll" THEN \E i \in 1..Len(B[3]) : ~IsEmpty(B[3][i]) /\ Inter(B[3][i], A, strip)
    ELSE IF OTag(A) = "emp" \/ OTag(B) = "emp" THEN FALSE
    ELSE MaskTab[A[2]] \cap MaskTab[B[2]] # {}
@@ -68,9 +68,10 @@ Inter(a, b, strip) ==
 Cont(a, b, strip) ==
    LET A == StripAll(a) B == StripAll(b) IN
    IF OTag(A) = "coll" THEN
+        LET ps == NonEmptyParts(b, strip) IN
         /\ ~IsEmpty(A)
-        /\ NonEmptyParts(b, strip) # <<>>
-        /\ \A j \in 1..Len(NonEmptyParts(b, strip)) : \E i \in 1..Len(A[3]) : ~IsEmpty(A[3][i]) /\ Cont(A[3][i], NonEmptyParts(b, strip)[j], strip)
+        /\ ps # <<>>
+        /\ \A j \in 1..Len(ps) : \E i \in 1..Len(A[3]) : ~IsEmpty(A[3][i]) /\ Cont(A[3][i], ps[j], strip)
    ELSE IF OTag(B) = "coll" THEN ~IsEmpty(B) /\ \A i \in 1..Len(B[3]) : Cont(A, B[3][i], strip)       \* B within A: EVERY child
    ELSE IF OTag(A) = "emp" \/ OTag(B) = "emp" THEN FALSE
    ELSE MaskTab[B[2]] # {} /\ MaskTab[B[2]] \subseteq MaskTab[A[2]]
